@@ -20,6 +20,14 @@ def padRanges : Option (List FileEnt) → List (Nat × Nat)
 def fnv64 (bs : Bytes) : UInt64 :=
   bs.foldl (fun h c => (h ^^^ c.toUInt64) * 1099511628211) 14695981039346656037
 
+/-- one writer of a multi-writer case -/
+structure WSlot where
+  st : Store := ⟨0, .opn, []⟩
+  w : W := newWriter 0 0
+  pos : Nat := 0
+  seed : Nat := 0
+  base : Nat := 0
+
 structure DS where
   st : Store := ⟨0, .opn, []⟩
   w : W := newWriter 0 0
@@ -32,6 +40,10 @@ structure DS where
   files : Option (List FileEnt) := none
   index : Nat := 0
   infl : List Nat := []     -- blocks of the piece marked in flight (never released by the harness)
+  -- multi-writer cases: the writers are independent; `w.sel` swaps the current one in and out
+  multi : Bool := false
+  cur : Nat := 0
+  others : List (Nat × WSlot) := []
 
 def fixedCode : Bool := true
 
@@ -164,6 +176,24 @@ def step (d : DS) (ws : List String) : DS × String :=
       ({ st := mkStore seed pl (if prefill == "-" then "" else prefill), w := newWriter off cnt,
          pos := 0, seed := seed, base := off }, "ok")
     | _, _, _, _ => (d, "bad-op")
+  | ["mw.begin"] => ({ multi := true }, "ok")
+  | ["w.sel", i] =>
+    match i.toNat? with
+    | some i =>
+      if !d.multi || i ≥ 3 then (d, "bad-op") else
+      let me : WSlot := { st := d.st, w := d.w, pos := d.pos, seed := d.seed, base := d.base }
+      let others := (d.others.filter (·.1 ≠ d.cur)) ++ [(d.cur, me)]
+      let nx : WSlot := ((others.find? (·.1 = i)).map (·.2)).getD {}
+      ({ d with st := nx.st, w := nx.w, pos := nx.pos, seed := nx.seed, base := nx.base,
+                cur := i, others := others }, "ok")
+    | none => (d, "bad-op")
+  | ["w.open", pl, off, cnt, seed, prefill] =>
+    match pl.toNat?, off.toNat?, cnt.toNat?, seed.toNat? with
+    | some pl, some off, some cnt, some seed =>
+      if !d.multi || pl = 0 then (d, "bad-op") else
+      ({ d with st := mkStore seed pl (if prefill == "-" then "" else prefill), w := newWriter off cnt,
+                pos := 0, seed := seed, base := off }, "ok")
+    | _, _, _, _ => (d, "bad-op")
   | ["w.write", n] =>
     match n.toNat? with
     | some n =>
@@ -268,6 +298,14 @@ def step (d : DS) (ws : List String) : DS × String :=
           let (_, oc) := close w'
           ({ d with st := st }, s!"log=- data={dataSum o1.evs} drop={dropStr oc.evs}")
       | _, _, _ => (d, "bad-op")
+    | _, _, _ => (d, "bad-op")
+  | ["url", base, name, comps] =>
+    let file : Option (Option (List Bytes)) :=
+      if comps == "nil" then some none
+      else if comps == "." then some (some [])
+      else ((comps.splitOn ",").mapM ofHex).map some
+    match ofHex base, ofHex name, file with
+    | some b, some n, some f => (d, toHex (buildUrl b n f))
     | _, _, _ => (d, "bad-op")
   | ["pcr", h] =>
     match strOfHex h with
